@@ -290,7 +290,7 @@ def case(ctx, rng, idx, state):
     if checked_orders >= {1, 2, 3}:
         ctx.nontrivial((nb, model.degree, model.convention, model.box, model.ntrig > 0, nvec,
                         tuple(int(x) for x in NK), tetra, round(math.log10(model.finite_diff_dk))))
-    if model.box in ("recip", "real"):
+    if model.box != "kmax":
         ctx.count("noncubic_boxes")
     ctx.count(f"convention_{model.convention}")
     ctx.sample(wit)
@@ -299,7 +299,7 @@ def case(ctx, rng, idx, state):
 if __name__ == "__main__":
     harness.main(
         PROP, "exploration", case, setup_fn=setup,
-        tiers=dict(quick=dict(cases=24, shards=8, time=80), thorough=dict(cases=480, shards=16, time=1000)),
+        tiers=dict(quick=dict(cases=24, shards=8, time=200), thorough=dict(cases=480, shards=16, time=1000)),
         rule="random k.p models H(x)=sum C_a x^a (+ A cos(q.x+phi)), Hermitian complex coefficients, degree 1-3, 1-4 "
              "bands, box given by kmax (0.02-5) / diagonal, tetragonal, hexagonal, fcc, bcc, triclinic recip_lattice / "
              "triclinic real_lattice (reciprocal vectors 0.2-8 1/A), "
